@@ -59,6 +59,12 @@ def check(repo: Repo) -> Result:
     purity(repo, res)
     raise_after_write(repo, res)
     inplace_twin(repo, res)
+    from rules import c04
+    from rules.common import share
+    from rules.ufunc import UfuncAnchors
+
+    r4 = res.rule("C18-R4", "out= / augmented assignment yields exactly the numbers of the copying call: the simplification coefficient is applied to the target once, and the returned object is not scaled again", floor=4)
+    share(res, r4, "C04", lambda t: c04.coefficient(repo, t, UfuncAnchors(repo)), ["C04-R3"], min_keys=4)
     return res
 
 
@@ -376,4 +382,6 @@ MUTANTS = [
     Mutant("unary-evaluates-first", ARR, "unyt_array.__array_ufunc__", "            # evaluate the ufunc\n            out_arr = func(np.asarray(inp), out=out_func, **kwargs)\n", "", ("C18-R2",), more=[(ARR, "unyt_array.__array_ufunc__", "            # get unit of result first:", "            out_arr = func(np.asarray(inp), out=out_func, **kwargs)\n            # get unit of result first:", 1)]),
     Mutant("handler-validate-late", AF, "fill_diagonal", "    _validate_units_consistency_v2(a.units, val)\n    np.fill_diagonal._implementation(np.asarray(a), val, *args, **kwargs)", "    np.fill_diagonal._implementation(np.asarray(a), val, *args, **kwargs)\n    _validate_units_consistency_v2(a.units, val)", ("C18-R2", "C01-R4")),
     Mutant("twin-diverges", ARR, "unyt_array.convert_to_units", "(conv_factor, offset) = self.units.get_conversion_factor(\n                    new_units, self.dtype\n                )", "(conv_factor, offset) = self.units.get_conversion_factor(\n                    new_units\n                )", ("C18-R3",)),
+    Mutant("as-coeff-unit-simplifies-self", UO, "Unit.as_coeff_unit", "self.expr.as_coeff_Mul()", "self.simplify().expr.as_coeff_Mul()", ("C18-R1",)),
+    Mutant("out-alias-by-base", ARR, "unyt_array.__array_ufunc__", "if np.shares_memory(out_arr, out):", "if out_arr.base is out:", ("C18-R4",)),
 ]
